@@ -118,7 +118,7 @@ def build_dehb_world(cfg):
                               rungs_first_bracket=list(rf), **({"num_brackets_per_iteration": cfg["nbi"]} if cfg.get("nbi") else {}))
     sign = 1.0 if cfg["mode"] == "min" else -1.0
     spec = dict(W=cfg["W"], T=cfg["T"], R=R, table=table(cfg["T"], R, sign), brackets=0, max_resource_attr=info["mra"],
-                fail_budget=cfg.get("F", 0))
+                fail_budget=cfg.get("F", 0), id0=cfg.get("id0", 0))
     return World(sched, spec, [BracketStructure(rf, cfg.get("nbi") or len(rf), cfg["mode"])])
 
 
@@ -182,6 +182,7 @@ def configs(tier, seed):
                         if len(ref_sys[0]) > 1:
                             cfg["perms"][str(ref_sys[0][1][1])] = tuple(reversed(range(T))) if (len(out) % 2) else tuple(range(T))
                         cfg["zero_rank"] = [None, T - 1, 1][len(out) % 3]
+                        cfg["id0"] = 7 if len(out) % 2 else 0
                         cfg["max_states"] = 4000 if tier == "quick" else 50000
                         out.append(cfg)
     # DEHB: structural subset
